@@ -372,11 +372,20 @@ def check(ck):
         guards = [gq.nodes[d] for d in dq[rn.id] if gq.nodes[d].kind == "branch"]
         ck.require(not guards, "C01.4", "%s: return is unconditional" % q.fn(freq), "no guard on the result",
                    "the result is returned only under `%s`" % [dump(b.test) for b in guards], q.loc(freq, rn))
-    fit = prog.func("jsonrpc", "MultiCallIterator.__get_result")
+    # the accessor of one batch result: the package function MultiCallIterator.__getitem__ hands self.results[i] to
+    # (or __getitem__ itself when it reads the member directly)
+    fgi = prog.func("jsonrpc", "MultiCallIterator.__getitem__")
+    acc = [r for (_n, _c, r) in common.callees(prog, fgi) if r.fq != "jsonrpc.check_for_errors"]
+    fit = acc[0] if acc else fgi
     git = cfg_of(fit)
+    item_param = [p for p in fit.params if p not in ("self", "cls")][:1]
     for rn in [n for n in git.live_nodes() if n.kind == "return"]:
         t = prov.origin(git, rn, rn.ast.value) if rn.ast is not None and rn.ast.value is not None else ("const", None)
-        ck.require(t == ("item", ("param", "item"), ("const", "result")), "C01.4", "%s: return" % q.fn(fit), "item['result']",
+        if fit is fgi:
+            okk = t[0] == "item" and t[2] == ("const", "result") and t[1][0] == "item" and t[1][1] == ("attr", ("param", "self"), "results")
+        else:
+            okk = bool(item_param) and t == ("item", ("param", item_param[0]), ("const", "result"))
+        ck.require(okk, "C01.4", "%s: return" % q.fn(fit), "item['result']",
                    "a batch result is returned as %s" % prov.show(t), q.loc(fit, rn))
     ck.floor("C01.4", 4)
 
